@@ -372,7 +372,14 @@ func metaGenHistoryX(r *Rng, profile string, ext bool) string {
 		case "app":
 			off := "-"
 			if r.Chance(40) {
-				off = strconv.Itoa(r.Intn(40))
+				switch k := r.Intn(10); {
+				case k < 2: // explicit offset 0: "create only if absent"
+					off = "0"
+				case k < 6 && len(g.contents) > 0: // the size of a body in use: often the current size of the key
+					off = strconv.Itoa(len(g.contents[r.Intn(len(g.contents))]))
+				default:
+					off = strconv.Itoa(r.Intn(40))
+				}
 			}
 			g.ops = append(g.ops, "app:"+bucket()+":"+key()+":"+tokBytes(string(g.content()))+":"+off)
 			g.putOps = append(g.putOps, i)
